@@ -137,7 +137,7 @@ Proof.
       destruct fb; simpl.
       * split; [|split; auto]. constructor; simpl; auto.
       * split; [constructor; auto|]. split; auto. intros th' E; discriminate.
-    + split; [|split]; auto. intros th' E; discriminate.
+    + split; [|split]; auto.
 Qed.
 
 (* ---------- root level ---------- *)
@@ -186,9 +186,9 @@ Qed.
 
 Lemma ps_trim_inv : forall r pl st, SInv r st -> SInv r (ps_trim pl st).
 Proof.
-  intros r pl st H v a I E. unfold ps_trim in I; simpl in I.
+  intros r pl st H v a I E. unfold ps_trim in I; cbn [ps_asm] in I.
   apply (adel_In value_eqb value_eqb_eq) in I. destruct I as [I _].
-  apply fold_trim_In in I. destruct I as [[]|I]. subst a. simpl in E.
+  apply (fold_trim_In (fun k => asm_trim (p_per pl) (ps_asm_get st k))) in I. destruct I as [[]|I]. subst a. simpl in E.
   eapply ps_asm_get_inv; eauto.
 Qed.
 
